@@ -55,6 +55,41 @@ def impl_build(case, update=True, second=None):
     return H.factors
 
 
+DRIVE_KEYS = ("omega", "phi", "delta", "noise")
+
+
+def impl_build_seq(case):
+    """make_H once, then every drive of case["seq"] applied IN PLACE on the same MPO object;
+    returns the list of factor snapshots (clones) taken after every update_H call."""
+    torch = _torch()
+    from emu_base import HamiltonianType
+    from emu_mps import hamiltonian as hm
+
+    U = torch.tensor(case["U"], dtype=torch.float64)
+    ht = HamiltonianType.Rydberg if case["ht"] == "Ryd" else HamiltonianType.XY
+    with contextlib.redirect_stdout(io.StringIO()):
+        H = hm.make_H(interaction_matrix=U, hamiltonian_type=ht, dim=case["dim"], num_gpus_to_use=0)
+    snaps = []
+    for drv in case["seq"]:
+        hm.update_H(
+            H,
+            omega=torch.tensor(drv["omega"], dtype=torch.complex128),
+            delta=torch.tensor(drv["delta"], dtype=torch.complex128),
+            phi=torch.tensor(drv["phi"], dtype=torch.complex128),
+            noise=torch.tensor([[complex(*z) for z in row] for row in drv["noise"]], dtype=torch.complex128),
+        )
+        snaps.append([f.clone() for f in H.factors])
+    return snaps
+
+
+def step_case(case, k):
+    """The single-update case equivalent to the state after the k-th update of a sequence: update_H
+    overwrites (theorem C05_update_H_sequence), so only the last drive may show."""
+    c = {k2: v for k2, v in case.items() if k2 != "seq"}
+    c.update({k2: case["seq"][k][k2] for k2 in DRIVE_KEYS})
+    return c
+
+
 def oc_os(case):
     """omega*cos(phi), omega*sin(phi) exactly as torch computes them (complex128), as (re, im) pairs."""
     torch = _torch()
@@ -259,6 +294,55 @@ def gen_cases(ctx):
     return cases
 
 
+def gen_noise(rng, dim, kind):
+    z = lambda: (rng.randint(-3, 3), rng.randint(-3, 3))
+    nz = [[(0, 0)] * dim for _ in range(dim)]
+    if kind == "full":
+        nz = [[z() for _ in range(dim)] for _ in range(dim)]
+    elif kind == "third":  # only entries of the last level (row/column dim-1)
+        t = dim - 1
+        for x in range(dim):
+            if rng.random() < 0.7:
+                nz[t][x] = z()
+            if rng.random() < 0.7:
+                nz[x][t] = z()
+        if not any(v != (0, 0) for row in nz for v in row):
+            nz[t][t] = (1, -2)
+    elif kind == "diag":
+        for x in range(dim):
+            nz[x][x] = (0, -rng.randint(1, 4))
+    return nz
+
+
+def gen_seq_case(rng, N=None, dim=None):
+    """3-5 successive in-place updates with noise kinds drawn from zero / full / third-level-only / diagonal,
+    always containing a non-zero noise followed (not necessarily immediately) by a zero one."""
+    N = N or rng.randint(2, 6)
+    dim = dim or rng.choice((2, 3, 3))
+    ht = rng.choice(("Ryd", "XY"))
+    pat = [p for p in pairs(N) if rng.random() < rng.choice([0.0, 0.4, 0.8, 1.0])]
+    mode = "tol" if rng.random() < 0.15 else "exact"
+    c = make_case(rng, N, pat, ht, dim, mode, "sequence")
+    n_upd = rng.randint(3, 5)
+    kinds = [rng.choice(("zero", "full", "third", "diag", "zero")) for _ in range(n_upd)]
+    i = rng.randrange(n_upd - 1)
+    kinds[i] = rng.choice(("full", "third"))
+    kinds[rng.randrange(i + 1, n_upd)] = "zero"
+    seq = []
+    for kd in kinds:
+        o = make_case(rng, N, [], ht, dim, mode, "x")
+        if rng.random() < 0.2:  # all-zero drive
+            o["omega"] = [0] * N
+            o["delta"] = [0] * N
+            o["phi"] = [0.0] * N
+        o["noise"] = gen_noise(rng, dim, kd)
+        seq.append({k: o[k] for k in DRIVE_KEYS})
+    c["seq"] = seq
+    c["noise_kinds"] = kinds
+    c.update(seq[-1])
+    return c
+
+
 def corpus_cases():
     p = common.VERIF / "corpus" / "C05.json"
     return json.loads(p.read_text()) if p.exists() else []
@@ -275,6 +359,8 @@ def property_check(ctx, case):
     N, d = case["N"], case["dim"]
     if d ** N > 800:
         return True
+    if "seq" in case:
+        return property_check_seq(ctx, case)
     try:
         factors = impl_build(case, update=True, second=case.get("first_drive"))
         got = contract_dense(factors).numpy()
@@ -293,6 +379,34 @@ def property_check(ctx, case):
     return True
 
 
+def property_check_seq(ctx, case):
+    """After EVERY in-place update_H of the sequence the real MPO must contract to the dense
+    Hamiltonian of the drive just written (nothing of the earlier updates may survive)."""
+    import numpy as np
+
+    try:
+        snaps = impl_build_seq(case)
+    except Exception as ex:
+        ctx.violation(f"make_H/update_H raised {type(ex).__name__}: {ex}",
+                      {"case": case, "finding_key": "make_H-raises"})
+        return False
+    for k, factors in enumerate(snaps):
+        sc = step_case(case, k)
+        got = contract_dense(factors).numpy()
+        err = float(np.abs(got - dense_reference(sc)).max())
+        if err > TOL:
+            fresh = float(np.abs(contract_dense(impl_build(sc)).numpy() - dense_reference(sc)).max())
+            stale = k > 0 and fresh <= TOL
+            key = "update_H-leaves-stale-entries" if stale else "mpo-ne-dense-" + case["ht"]
+            what = (f"after in-place update_H call #{k + 1} (noise kinds {case.get('noise_kinds')}) the MPO differs "
+                    f"from the dense Hamiltonian of the drive just written, max |diff| = {err:.3g}"
+                    + ("; the same drive on a fresh make_H is correct: entries of an earlier update survive"
+                       if stale else ""))
+            ctx.violation(what, {"case": case, "failing_call": k, "max_abs_diff": err, "finding_key": key})
+            return False
+    return True
+
+
 def run(ctx):
     from vlib.coqparse import parse
 
@@ -303,9 +417,11 @@ def run(ctx):
 
     cases = list(corpus_cases()) + gen_cases(ctx)
     rng = ctx.rng
+    seq_cases = [gen_seq_case(rng, N=2 + k % 5, dim=3 if k % 3 else 2) for k in range(ctx.n(60, 600))]
+    cases += seq_cases
     # a previous drive for a third of the cases: update_H twice must equal the last update
     for c in cases:
-        if c.get("symmetric", True) and rng.random() < 0.33 and "first_drive" not in c:
+        if c.get("symmetric", True) and rng.random() < 0.33 and "first_drive" not in c and "seq" not in c:
             o = make_case(rng, c["N"], [], c["ht"], c["dim"], "tol", "x")
             c["first_drive"] = {k: o[k] for k in ("omega", "phi", "delta", "noise")}
 
@@ -325,26 +441,42 @@ def run(ctx):
             ev = common.CoqEval("C05", HEADER)
             plan = []
             for k, c in enumerate(cases):
+                if "seq" in c:  # one model evaluation per in-place update, compared after EVERY call
+                    for j in range(len(c["seq"])):
+                        plan.append((k, ("seq", j)))
+                        ev.add(model_expr(step_case(c, j), True))
+                    continue
                 plan.append((k, True))
                 ev.add(model_expr(c, True))
                 if k % 8 == 0:
                     plan.append((k, False))
                     ev.add(model_expr(c, False))
             outs = ev.run(shard=150, jobs=12)
+            snaps_cache = {}
             for (k, upd), o in zip(plan, outs):
                 c = cases[k]
                 m = parse(o)
                 exact = (not upd) or c["mode"] == "exact"  # an earlier drive is overwritten completely
                 try:
-                    f = impl_build(c, update=upd, second=c.get("first_drive") if upd else None)
-                    why = compare(c, f, m, exact)
+                    if isinstance(upd, tuple):
+                        if k not in snaps_cache:
+                            snaps_cache.clear()
+                            snaps_cache[k] = impl_build_seq(c)
+                        f = snaps_cache[k][upd[1]]
+                        why = compare(c, f, m, exact)
+                        if why:
+                            why = f"after in-place update #{upd[1] + 1} of {c.get('noise_kinds')}: {why}"
+                    else:
+                        f = impl_build(c, update=upd, second=c.get("first_drive") if upd else None)
+                        why = compare(c, f, m, exact)
                 except Exception as ex:  # e.g. the MPO constructor rejects inconsistent bond dimensions
                     why = f"make_H/update_H raised {type(ex).__name__}: {ex}"
                 key = f"{c['kind']}/N{c['N']}/{c['ht']}/d{c['dim']}/{'exact' if exact else 'tol'}"
                 hist[key] = hist.get(key, 0) + 1
-                if upd:
-                    ctx.count_case({k2: c[k2] for k2 in ("kind", "N", "ht", "dim", "mode", "pattern", "U")},
-                                   nontrivial=len(c["pattern"]) > 0)
+                if upd is True or (isinstance(upd, tuple) and upd[1] == 0):
+                    ctx.count_case({k2: c.get(k2) for k2 in ("kind", "N", "ht", "dim", "mode", "pattern", "U",
+                                                              "noise_kinds")},
+                                   nontrivial=len(c["pattern"]) > 0 or "seq" in c)
                 if why and corr_ok:
                     corr_ok = False
                     detail = f"update={upd} {why} case={json.dumps(c)}"
@@ -357,6 +489,9 @@ def run(ctx):
     ctx.rule = ("every sparsity pattern of U for N<=4 (quick) / N<=5 (thorough) x {Rydberg,XY} x {dim 2,3}, "
                 "sampled N=5, random patterns N=6..9, non-symmetric matrices N=3..7; signed small-integer U, "
                 "integer drive with phi=0 (exact) or generic drive (tol 1e-9), Gaussian-integer noise block; "
+                "plus sequences of 3-5 in-place update_H calls on the SAME MPO (N=2..6, dim 2/3, noise kinds "
+                "zero/full/third-level-only/diagonal with a zero noise after a non-zero one, all-zero drives), "
+                "compared entry-by-entry and densely after EVERY call; "
                 "a case is non-trivial when at least one pair interacts; distinct by input hash")
     ctx.trusted_base += ["hand-written model coq/Model/MpoHam.v (validated entry-by-entry by this correspondence)",
                          "float64 arithmetic on small integers / dyadics is exact (exact mode)"]
